@@ -41,6 +41,28 @@ def run(chk):
     from . import _glue, _oracle
 
     _glue.glue_part(chk, ["CountMinLinear", "HeavyHitters"], {"add"}, lambda: _oracle.c01_history(chk, 200))
+    # constructors of the log types: _find_base receives max_count / num_reserved / ceiling inside the
+    # ranges of its parameter types (no silent truncation at the dispatcher) and propagates ValueError
+    from .. import glue, pyexec
+    from . import _wrappers
+
+    ex = glue.make_exec(chk)
+    for cls in ("CountMinLog16", "CountMinLog8"):
+        try:
+            a_, objs, bad_ = _glue.good_objects(ex, cls, "fb")
+        except pyexec.Unsupported as e:
+            chk.undecided.append((cls + ".__init__", "unsupported construct in glue: %s" % e))
+            continue
+        for ref, st in objs[:1]:
+            ks = [e for e in st.effects if e[0] == "kernel" and e[1] == "countmin._find_base"]
+            _wrappers.row(chk, cls + ".__init__:calls-_find_base-once", len(ks) == 1, None)
+            f = st.objs[ref.oid]["fields"]
+            for e in ks:
+                _wrappers.args_in_range(chk, cls + ".__init__", e, st.pc)
+                ok = all(_wrappers.same_value(chk, st.pc, e[2][pn], f[fn_]) for pn, fn_ in (("max_count", "max_count"), ("num_reserved", "num_reserved"), ("uint_max", "uint_maxval")))
+                _wrappers.row(chk, cls + ".__init__:_find_base-gets-own-max_count/num_reserved/ceiling", ok, None)
+        verr = [1 for v, s_ in bad_ if _glue.exc_type(s_, v) is ValueError]
+        _wrappers.row(chk, cls + ".__init__:ValueError-of-_find_base-propagates", len(verr) >= 1, None)
     _cm.crosscheck_linear(chk)
     quick = chk.tier == "quick"
     # constructor clause: _find_base is 200 float Newton steps - outside the verifier's reach
@@ -53,7 +75,7 @@ def run(chk):
         chk.violation("countmin._merge_log:bounded:ceiling", {"verdict": "bounded float stand-in failed"}, mfirst)
     chk.bounded_standin("log merges at and around the ceiling on the real kernels (nearest-counter oracle, never below an input)", "see C09", mc, mf)
     n = 25 if quick else 400
-    c1, bad = _cm.runtime_search(chk, LINEAR, n, only=None)
+    c1, bad = _cm.runtime_search(chk, LINEAR, n, only=lambda c: not c.startswith("x-") or c in ("x-cells", "x-n_added", "x-n_records") and False)
     c2, bad2 = _log.runtime_search(chk, ["countmin._log_counter", "countmin._add_log16", "countmin._add_log8", "countmin._merge_log16", "countmin._merge_log8"], n)
     for b in (bad, bad2):
         if b:
